@@ -560,8 +560,6 @@ pub fn check(spec: &'static PropSpec, tier: Tier) -> i32 {
     let known = load_known();
     let mut printed_known: BTreeSet<String> = BTreeSet::new();
     let mut new_violation_lines: Vec<String> = Vec::new();
-    let mut known_count = 0u64;
-    let mut unknown_count = 0u64;
     let mut minimised_samples: Vec<Value> = Vec::new();
     let mut seen_new_class: BTreeSet<String> = BTreeSet::new();
     violations.sort_by_key(|v| (v["class"].as_str().unwrap_or("").to_string(), v["tape"].as_array().map_or(0, Vec::len)));
@@ -573,14 +571,12 @@ pub fn check(spec: &'static PropSpec, tier: Tier) -> i32 {
             continue;
         }
         if let Some(k) = known_for(&known, spec.id, &class, &detail) {
-            known_count += 1;
             let key = format!("{}|{}|{:?}", k.property, k.class, k.matches);
             if printed_known.insert(key) {
                 println!("KNOWN-FINDING: property={} class={} {}", spec.id, class, k.what);
             }
             continue;
         }
-        unknown_count += 1;
         let dedup = format!("{class}");
         if !seen_new_class.insert(dedup) {
             continue;
@@ -610,8 +606,11 @@ pub fn check(spec: &'static PropSpec, tier: Tier) -> i32 {
         println!("  detail: {detail}");
         new_violation_lines.push(format!("VIOLATION property={} replay={}", spec.id, path.display()));
     }
-    // classes that were counted but whose stored samples were all known
+    // a class counts as known when every stored sample of it matched a known finding
     let total_violations: u64 = classes.values().sum();
+    let unknown_total: u64 = classes.iter().filter(|(c, _)| seen_new_class.contains(*c)).map(|(_, n)| *n).sum();
+    let known_count = total_violations - unknown_total;
+    let unknown_count = unknown_total;
 
     // samples for evidence: re-run a couple of non-trivial runs with a trace
     let mut samples: Vec<Value> = Vec::new();
